@@ -53,14 +53,23 @@ def matching_time_indices(stamps_1: np.ndarray, stamps_2: np.ndarray,
     """
     matching_indices_1 = []
     matching_indices_2 = []
+    matching_diffs = []
     stamps_2 = copy.deepcopy(stamps_2)
     stamps_2 += offset_2
     for index_1, stamp_1 in enumerate(stamps_1):
         diffs = np.abs(stamps_2 - stamp_1)
         index_2 = int(np.argmin(diffs))
         if diffs[index_2] <= max_diff:
+            if matching_indices_2 and matching_indices_2[-1] == index_2:
+                # This stamp of stamps_2 is already matched.
+                # Don't use it twice, keep only the closer match.
+                if diffs[index_2] < matching_diffs[-1]:
+                    matching_indices_1[-1] = index_1
+                    matching_diffs[-1] = diffs[index_2]
+                continue
             matching_indices_1.append(index_1)
             matching_indices_2.append(index_2)
+            matching_diffs.append(diffs[index_2])
     return matching_indices_1, matching_indices_2
 
 
